@@ -24,7 +24,9 @@ def run(ctx):
     ctx.exhaustive = True
     curves = ['bn254', CURVES[1 + ctx.seed % 6]] if quick else CURVES
     for curve in curves:
-        res = ctx.harness(['c03replay', '--curve', curve, '--par', '16'], behs, timeout=7200)
+        res = ctx.harness(['c03replay', '--curve', curve, '--par', '16'], behs, timeout=7200, crash_ok=True)
+        if ctx.last_crash:
+            ctx.report('the prover crashed the process (panic outside the caller\'s reach): %s' % curve_free(ctx.last_crash), {'curve': curve, 'crash': ctx.last_crash})
         byid = {b['id']: b for b in behs}
         seen = 0
         for rr in res:
@@ -47,7 +49,7 @@ def run(ctx):
                 ctx.report('%s circuit=%s witness=%s options=%s statZK=%s: expected %s, real code: %s' % (
                     c['backend'], c['circuit'], c['witness'], opts, c['statZK'], b['expected'], o),
                     {'config': c, 'curve': curve, 'result': rr})
-        if seen != len(behs) and not any(rr['outcome'] == 'hang' for rr in res):
+        if seen != len(behs) and not any(rr['outcome'] == 'hang' for rr in res) and not ctx.last_crash:
             raise vlib.Infra('short C03 replay: %d of %d' % (seen, len(behs)))
     hangs = [v for v in ctx.violations if 'hang' in v[0] or 'left blocked' in v[0]]
     ctx.extra['pipeline_model_leads'] = pipeline_leads
